@@ -2,7 +2,7 @@
 
 install(plan, obs) is used as a drive.Job.pre_hook: it wraps LibcstTransformerPipeline.apply and the
 transformer visitor entry points in the harness process and returns the undo function.
-plan = {"faults": [{"file": <basename>, "kind": "delete-before" | "raise-entry" | "raise-node", "at": "first"|"middle"|"last",
+plan = {"faults": [{"file": <basename>, "kind": "delete-before" | "raise-entry" | "raise-node" | "write-oserror", "at": "first"|"middle"|"last",
                     "only_transformer": <class name or None>}]}
 """
 from __future__ import annotations
@@ -70,12 +70,23 @@ def install(plan, obs):
             raise InjectedFault(f"injected: leaving the module of {f['file']}")
         return super(lt.LibcstResultTransformer, self).on_leave(original_node, updated_node)
 
+    orig_update = lt.update_code
+
+    def update_code(file_path, new_code, *a, **kw):
+        f = faults.get(getattr(file_path, "name", str(file_path).rsplit("/", 1)[-1]))
+        if f and f["kind"] == "write-oserror":
+            fired.append((f["file"], "write-oserror"))
+            raise PermissionError(13, "Permission denied (injected)", str(file_path))
+        return orig_update(file_path, new_code, *a, **kw)
+
+    lt.update_code = update_code
     lt.LibcstTransformerPipeline.apply = apply
     lt.LibcstResultTransformer.transform = classmethod(transform)
     lt.LibcstResultTransformer.on_visit = on_visit
     lt.LibcstResultTransformer.on_leave = on_leave
 
     def undo():
+        lt.update_code = orig_update
         lt.LibcstTransformerPipeline.apply = orig_apply
         lt.LibcstResultTransformer.transform = orig_transform
         if had_visit:
